@@ -18,6 +18,7 @@ use p3_uni_stark::VerifierConstraintFolder;
 
 use crate::air::{BaseExprAir, ExtExprAir, konst};
 use crate::common::*;
+use crate::hand::{HSpec, HandAlg, Root, walk};
 use crate::spec::*;
 
 pub type EF = Challenge;
@@ -362,6 +363,110 @@ pub fn eval_spec(spec: &Spec, seed: u64) -> Result<Outcome, EvalError> {
         per.push((nat, catch_run(&built, &a)));
     }
     Ok(Outcome { per: plain(per), oracle_cross_checked: true })
+}
+
+// ---------------------------------------------------------------------------------------
+// hand-built Arc DAGs (hand.rs)
+
+type SymB = SymbolicExpression<F>;
+type SymE = p3_air::SymbolicExpressionExt<F, EF>;
+
+/// Node constructors over p3's PUBLIC symbolic enum: every operand `Arc` is exactly the
+/// handle the walker passes in, so a `Ref` puts the SAME allocation into the new node.
+struct SymAlg;
+fn deg_bin(o: Op, x: usize, y: usize) -> usize {
+    if o == Op::Mul { x + y } else { x.max(y) }
+}
+impl HandAlg for SymAlg {
+    type B = std::sync::Arc<SymB>;
+    type E = std::sync::Arc<SymE>;
+    fn b_leaf(&mut self, l: &BT) -> Self::B {
+        std::sync::Arc::new(sym(l))
+    }
+    fn b_neg(&mut self, x: Self::B) -> Self::B {
+        let degree_multiple = x.degree_multiple();
+        std::sync::Arc::new(SymB::Neg { x, degree_multiple })
+    }
+    fn b_bin(&mut self, o: Op, x: Self::B, y: Self::B) -> Self::B {
+        let degree_multiple = deg_bin(o, x.degree_multiple(), y.degree_multiple());
+        std::sync::Arc::new(match o {
+            Op::Add => SymB::Add { x, y, degree_multiple },
+            Op::Sub => SymB::Sub { x, y, degree_multiple },
+            Op::Mul => SymB::Mul { x, y, degree_multiple },
+        })
+    }
+    fn e_const(&mut self, i: u8) -> Self::E {
+        std::sync::Arc::new(SymE::Leaf(p3_air::ExtLeaf::ExtConstant(ef(ECONSTS[i as usize]))))
+    }
+    fn e_lift(&mut self, b: Self::B) -> Self::E {
+        // the lifted base expression is held by value inside the extension leaf
+        let b = std::sync::Arc::try_unwrap(b).unwrap_or_else(|a| (*a).clone());
+        std::sync::Arc::new(SymE::Leaf(p3_air::ExtLeaf::Base(b)))
+    }
+    fn e_neg(&mut self, x: Self::E) -> Self::E {
+        let degree_multiple = x.degree_multiple();
+        std::sync::Arc::new(SymE::Neg { x, degree_multiple })
+    }
+    fn e_bin(&mut self, o: Op, x: Self::E, y: Self::E) -> Self::E {
+        let degree_multiple = deg_bin(o, x.degree_multiple(), y.degree_multiple());
+        std::sync::Arc::new(match o {
+            Op::Add => SymE::Add { x, y, degree_multiple },
+            Op::Sub => SymE::Sub { x, y, degree_multiple },
+            Op::Mul => SymE::Mul { x, y, degree_multiple },
+        })
+    }
+}
+
+/// AIR whose SYMBOLIC evaluation emits the hand-built DAG and whose NATIVE evaluation is the
+/// API-built AIR of the DAG's tree unfolding (the same polynomials, computed by p3's folder).
+pub struct HandAir {
+    spec: HSpec,
+    twin: ExtExprAir,
+}
+impl HandAir {
+    pub fn new(spec: &HSpec) -> Result<HandAir, String> {
+        Ok(HandAir { spec: spec.clone(), twin: ExtExprAir(lower(&spec.unfold()?)) })
+    }
+}
+impl<T: PrimeCharacteristicRing + Sync> p3_air::BaseAir<T> for HandAir {
+    fn width(&self) -> usize {
+        MAIN_W
+    }
+    fn preprocessed_width(&self) -> usize {
+        PREP_W
+    }
+    fn num_public_values(&self) -> usize {
+        PUB_W
+    }
+    fn num_periodic_columns(&self) -> usize {
+        PER_W
+    }
+    fn periodic_columns(&self) -> Vec<Vec<T>> {
+        p3_air::BaseAir::<T>::periodic_columns(&self.twin)
+    }
+}
+impl Air<InteractionSymbolicBuilder<F, EF>> for HandAir {
+    fn eval(&self, builder: &mut InteractionSymbolicBuilder<F, EF>) {
+        use p3_air::{AirBuilder, ExtensionBuilder};
+        let roots = walk(&self.spec, &mut SymAlg).expect("validated hand spec");
+        for r in roots {
+            // the root node is moved into the builder by value; its operand Arcs stay shared
+            match r {
+                Root::B(a) => builder.assert_zero(std::sync::Arc::try_unwrap(a).unwrap_or_else(|a| (*a).clone())),
+                Root::E(a) => builder.assert_zero_ext(std::sync::Arc::try_unwrap(a).unwrap_or_else(|a| (*a).clone())),
+            }
+        }
+    }
+}
+impl<'x> Air<VerifierConstraintFolderWithLookups<'x, MyConfig>> for HandAir {
+    fn eval(&self, builder: &mut VerifierConstraintFolderWithLookups<'x, MyConfig>) {
+        self.twin.eval(builder)
+    }
+}
+
+pub fn eval_hand(spec: &HSpec, seed: u64) -> Result<Outcome, EvalError> {
+    let air = HandAir::new(spec).map_err(EvalError::Machinery)?;
+    eval_air(&air, &[], Layout::of(0), seed)
 }
 
 /// Native folded values of `spec` (batch path) — used to diagnose a mismatch.
